@@ -203,7 +203,7 @@ def s2(ctx, taint, off):
     nd = 0
     per = {}
     for k, f in prog.funcs.items():
-        if not f.get('body') or k not in off:
+        if not f.get('body') or k not in off or prog.is_helper(f):
             continue
         short = f['q'].split('::')[-1]
         is_dec = 'RFC4880' in f['file'] and DECODER_RE.search(short) and 'SymmetricDecrypt' not in short
@@ -258,7 +258,7 @@ def s1(ctx, taint, off):
     prog = ctx.prog
     n = 0
     for k, f in prog.funcs.items():
-        if not f.get('body') or k not in off:
+        if not f.get('body') or k not in off or prog.is_helper(f):
             continue
         tp = taint.get(k, set())
         a = None
@@ -575,7 +575,7 @@ def s5(ctx, taint, off):
     prog = ctx.prog
     n = 0
     for k, f in prog.funcs.items():
-        if not f.get('body') or k not in off:
+        if not f.get('body') or k not in off or prog.is_helper(f):
             continue
         tp = taint.get(k, set())
         a = ctx.analysis(f)
@@ -660,7 +660,7 @@ def s7(ctx, taint, off):
     n = 0
     nu = 0
     for k, f in prog.funcs.items():
-        if not f.get('body') or k not in off:
+        if not f.get('body') or k not in off or prog.is_helper(f):
             continue
         tp = taint.get(k, set())
         short = f['q'].split('::')[-1]
